@@ -24,6 +24,7 @@ import (
 	"encoding/json"
 	"flag"
 	"fmt"
+	"math/big"
 	"os"
 	"os/exec"
 	"regexp"
@@ -36,9 +37,14 @@ import (
 	"time"
 
 	"github.com/piotrnar/gocoin/lib/btc"
-	"github.com/piotrnar/gocoin/lib/secp256k1"
 
 	"verif/internal/ev"
+)
+
+// suspect watchdogs of the exploration pass (see fullWatchdog)
+const (
+	suspectNetMs = 4000
+	suspectLibMs = 1500
 )
 
 var replayFile = flag.String("replay", "", "replay one recorded case (no explorer)")
@@ -208,20 +214,34 @@ func (p *proc) run(cs *Case) Result {
 		err  error
 	}
 	ch := make(chan rd, 1)
+	var lastP int64 = -1
 	go func() {
-		l, e := p.fromW.ReadBytes('\n')
-		ch <- rd{l, e}
+		for {
+			l, e := p.fromW.ReadBytes('\n')
+			if e == nil && bytes.HasPrefix(l, []byte(`{"p":`)) {
+				var pr struct{ P int64 }
+				json.Unmarshal(l, &pr)
+				atomic.StoreInt64(&lastP, pr.P)
+				continue
+			}
+			ch <- rd{l, e}
+			return
+		}
 	}()
-	limit := watchdog + 45*time.Second
-	if cs.Kind == "lib" {
-		limit = watchdog + 120*time.Second
+	died := func(v *Violation) Result {
+		v.Event = int(atomic.LoadInt64(&lastP))
+		return Result{ID: cs.ID, Viol: v, Fatal: true, Died: true}
+	}
+	limit := fullWatchdog + 45*time.Second
+	if cs.WdMs > 0 {
+		limit = time.Duration(cs.WdMs)*time.Millisecond + 45*time.Second
 	}
 	select {
 	case r := <-ch:
 		if r.err != nil || len(r.line) == 0 {
 			ex := p.stop(false)
 			tail := p.stderrTail()
-			return Result{ID: cs.ID, Viol: classifyDeath(cs, tail, ex, false), Fatal: true, Died: true}
+			return died(classifyDeath(cs, tail, ex, false))
 		}
 		var res Result
 		if err := json.Unmarshal(r.line, &res); err != nil {
@@ -237,24 +257,43 @@ func (p *proc) run(cs *Case) Result {
 		tail := p.stderrTail()
 		ex := p.stop(true)
 		<-ch
-		return Result{ID: cs.ID, Viol: classifyDeath(cs, tail, ex, true), Fatal: true, Died: true}
+		return died(classifyDeath(cs, tail, ex, true))
 	}
 }
 
 // ---------------------------------------------------------------------------
 
+// xauthPayload builds an "xauth" message: pubkey, DER signature of the node's (fixed)
+// nonce, tip hash, tip height. The signature is computed here with a fixed k so that
+// the template - and with it the size of every family - is the same on every run.
 func xauthPayload(w *world, priv []byte) []byte {
-	var rnd [32]byte
-	copy(rnd[:], fixedNonce)
-	r, s, err := btc.EcdsaSign(priv, rnd[:])
-	if err != nil {
-		ev.HarnessError("xauth template: %v", err)
+	n, _ := new(big.Int).SetString("fffffffffffffffffffffffffffffffebaaedce6af48a03bbfd25e8cd0364141", 16)
+	k := make([]byte, 32)
+	for i := range k {
+		k[i] = byte(0x5a ^ i ^ int(priv[0]))
 	}
-	var sig secp256k1.Signature
-	sig.R.Set(r)
-	sig.S.Set(s)
+	var z32 [32]byte
+	copy(z32[:], fixedNonce)
+	rr := new(big.Int).SetBytes(btc.PublicFromPrivate(k, true)[1:33])
+	rr.Mod(rr, n)
+	ss := new(big.Int).Mul(rr, new(big.Int).SetBytes(priv))
+	ss.Add(ss, new(big.Int).SetBytes(z32[:]))
+	ss.Mul(ss, new(big.Int).ModInverse(new(big.Int).SetBytes(k), n))
+	ss.Mod(ss, n)
+	if ss.Cmp(new(big.Int).Rsh(n, 1)) > 0 {
+		ss.Sub(n, ss)
+	}
+	derInt := func(v *big.Int) []byte {
+		b := v.Bytes()
+		if len(b) == 0 || b[0]&0x80 != 0 {
+			b = append([]byte{0}, b...)
+		}
+		return append([]byte{0x02, byte(len(b))}, b...)
+	}
+	body := append(derInt(rr), derInt(ss)...)
+	sig := append([]byte{0x30, byte(len(body))}, body...)
 	b := append([]byte{}, btc.PublicFromPrivate(priv, true)...)
-	b = append(b, sig.Bytes()...)
+	b = append(b, sig...)
 	b = append(b, w.tipH[:]...)
 	return append(b, le32(prefixLen)...)
 }
@@ -408,6 +447,7 @@ type tally struct {
 	violCases map[string]int
 	firstCase map[string]*Case
 	firstViol map[string]*Violation
+	cands     map[string][]*Case // up to 3 lowest-numbered cases per key
 	deaths    int
 	disturbed int
 	msgs      int64
@@ -448,7 +488,7 @@ func main() {
 	}
 	r := ev.Start("C18", "exploration")
 	if wd := os.Getenv("C18_WATCHDOG"); wd != "" {
-		watchdog, _ = time.ParseDuration(wd)
+		fullWatchdog, _ = time.ParseDuration(wd)
 	}
 	if r.Thorough() {
 		r.Budget = 40 * time.Minute
@@ -481,6 +521,9 @@ func main() {
 		p := newProc(0)
 		res := p.run(&rec.Replay.Case)
 		p.stop(true)
+		if res.Viol == nil && len(res.More) > 0 {
+			res.Viol = res.More[0]
+		}
 		cleanup()
 		if res.Viol != nil {
 			fmt.Fprintf(ev.Out, "replay: VIOLATION key=%s\n  %s\n", res.Viol.Key, res.Viol.What)
@@ -526,7 +569,7 @@ func main() {
 	}
 
 	t := &tally{perFamily: map[string]int{}, perCmd: map[string]int{}, perCtx: map[string]int{}, outcomes: map[string]int{}, nontriv: map[string]bool{},
-		violCases: map[string]int{}, firstCase: map[string]*Case{}, firstViol: map[string]*Violation{}}
+		violCases: map[string]int{}, firstCase: map[string]*Case{}, firstViol: map[string]*Violation{}, cands: map[string][]*Case{}}
 	samples := &ev.Samples{N: 6}
 
 	nw := runtime.NumCPU()
@@ -557,10 +600,19 @@ func main() {
 		}
 		if res.Viol != nil {
 			k := res.Viol.Key
+			if t.violCases[k] == 0 && os.Getenv("C18_DEBUG") != "" {
+				fmt.Fprintf(os.Stderr, "FIRST %s\n%s\n%s\n", k, res.Viol.What, res.Viol.Stack)
+			}
 			t.violCases[k]++
 			if t.firstCase[k] == nil || cs.ID < t.firstCase[k].ID {
 				t.firstCase[k], t.firstViol[k] = cs, res.Viol
 			}
+			cl := append(t.cands[k], cs)
+			sort.Slice(cl, func(i, j int) bool { return cl[i].ID < cl[j].ID })
+			if len(cl) > 3 {
+				cl = cl[:3]
+			}
+			t.cands[k] = cl
 			t.outcomes[cmd+" -> VIOLATION "+k]++
 			return
 		}
@@ -597,7 +649,11 @@ func main() {
 				if r.OverBudget() {
 					continue
 				}
+				tq := time.Now()
 				res := p.run(cs)
+				if d := time.Since(tq); d > 5*time.Second {
+					fmt.Fprintf(os.Stderr, "SLOW case %d %s/%s/%s/%s: %v viol=%v\n", cs.ID, cs.Kind, cs.Tmpl, cs.Ctx, cs.Family, d, res.Viol != nil)
+				}
 				for try := 0; res.Viol == nil && res.Disturbed && try < 3; try++ {
 					t.mu.Lock()
 					t.disturbed++
@@ -625,7 +681,7 @@ func main() {
 			return 0
 		case c.Kind == "net" && strings.HasPrefix(c.Family, "count/") && (strings.HasPrefix(c.Tmpl, "cmpctblock") || c.Tmpl == "blocktxn"):
 			return 1
-		case c.Kind == "lib" && strings.Contains(c.Family, "count-pair"):
+		case c.Kind == "lib" && c.Lib.Fn == "TxSize":
 			return 2
 		case c.Kind == "lib":
 			return 4
@@ -634,6 +690,12 @@ func main() {
 	}
 	sort.SliceStable(cases, func(i, j int) bool { return prio(cases[i]) < prio(cases[j]) })
 	for _, c := range cases {
+		switch c.Kind {
+		case "net":
+			c.WdMs = suspectNetMs
+		case "lib":
+			c.WdMs = suspectLibMs
+		}
 		jobs <- c
 	}
 	close(jobs)
@@ -647,7 +709,9 @@ func main() {
 		ev.HarnessError("oracle self-tests did not run (%d)", t.selfOK)
 	}
 
-	// confirmation: every distinct violation is re-run in fresh workers before it is reported
+	// confirmation: every distinct violation key is re-run in fresh workers with the
+	// full watchdog before it is reported (up to three candidate cases per key: a loop
+	// of ~2^32 cheap iterations may or may not exceed the watchdog, 2^62 always does)
 	var keys []string
 	for k := range t.firstCase {
 		keys = append(keys, k)
@@ -655,9 +719,11 @@ func main() {
 	sort.Strings(keys)
 	type conf struct {
 		key  string
-		same int
-		runs int
+		ok   bool
+		cs   *Case
+		v    *Violation
 		got  []string
+		runs int
 	}
 	confs := make([]conf, len(keys))
 	var cw sync.WaitGroup
@@ -665,11 +731,8 @@ func main() {
 	for i, k := range keys {
 		confs[i].key = k
 		n := 2
-		if strings.Contains(k, "/hang@") || strings.Contains(k, "unresponsive") {
+		if strings.Contains(k, "/hang") || strings.Contains(k, "unresponsive") {
 			n = 1
-			if t.violCases[k] >= 2 {
-				n = 0 // already reproduced by independent cases in different workers
-			}
 		}
 		cw.Add(1)
 		go func(i int, k string, n int) {
@@ -677,30 +740,47 @@ func main() {
 			sem <- struct{}{}
 			defer func() { <-sem }()
 			p := newProc(1000 + i)
-			for j := 0; j < n; j++ {
-				res := p.run(t.firstCase[k])
-				p.stop(true)
-				confs[i].runs++
-				if res.Viol != nil && res.Viol.Key == k {
-					confs[i].same++
-				} else if res.Viol != nil {
-					confs[i].got = append(confs[i].got, res.Viol.Key)
-				} else {
-					confs[i].got = append(confs[i].got, "pass")
+			for _, cand := range t.cands[k] {
+				c2 := *cand
+				c2.WdMs = 0
+				same := 0
+				var last *Violation
+				for j := 0; j < n; j++ {
+					res := p.run(&c2)
+					p.stop(true)
+					if res.Viol == nil && len(res.More) > 0 {
+						res.Viol = res.More[0]
+					}
+					confs[i].runs++
+					if res.Viol != nil && res.Viol.Key == k {
+						same++
+						last = res.Viol
+					} else if res.Viol != nil {
+						confs[i].got = append(confs[i].got, res.Viol.Key)
+					} else {
+						confs[i].got = append(confs[i].got, "pass")
+					}
+				}
+				if same == n {
+					confs[i].ok, confs[i].cs, confs[i].v = true, cand, last
+					return
 				}
 			}
 		}(i, k, n)
 	}
 	cw.Wait()
 	perKey := map[string]int{}
+	confRuns := 0
 	for _, c := range confs {
-		cs, v := t.firstCase[c.key], t.firstViol[c.key]
 		perKey[c.key] = t.violCases[c.key]
-		if c.same != c.runs {
-			r.Unrepro = append(r.Unrepro, fmt.Sprintf("%s (case %s/%s/%s): re-runs gave %v", c.key, cs.Ctx, cs.Tmpl, cs.Family, c.got))
+		confRuns += c.runs
+		if !c.ok {
+			cs := t.firstCase[c.key]
+			r.Unrepro = append(r.Unrepro, fmt.Sprintf("%s (first case %s/%s/%s, %d cases): re-runs with the full watchdog gave %v", c.key, cs.Ctx, cs.Tmpl, cs.Family, t.violCases[c.key], c.got))
 			fmt.Fprintf(os.Stderr, "UNREPRODUCIBLE %s: %v\n", c.key, c.got)
 			continue
 		}
+		cs, v := c.cs, c.v
 		rep := map[string]interface{}{"case": cs, "context": cs.Ctx, "family": cs.Family, "template": cs.Tmpl, "stack": v.Stack,
 			"cases_with_this_key": t.violCases[c.key]}
 		if cs.Kind == "net" && v.Event >= 0 && v.Event < len(cs.Events) {
@@ -708,7 +788,7 @@ func main() {
 		} else if cs.Kind == "lib" && len(cs.Lib.Ins) > 0 {
 			rep["failing_input"] = cs.Lib.Ins[0]
 		}
-		r.Report(c.key, v.What+fmt.Sprintf(" [first case: ctx=%s template=%s family=%s; %d cases share this key]", cs.Ctx, cs.Tmpl, cs.Family, t.violCases[c.key]), rep)
+		r.Report(c.key, v.What+fmt.Sprintf(" [case: ctx=%s template=%s family=%s; %d cases share this key]", cs.Ctx, cs.Tmpl, cs.Family, t.violCases[c.key]), rep)
 	}
 
 	oc := map[string]int{}
@@ -732,7 +812,9 @@ func main() {
 		"timing_disturbed_reruns":  t.disturbed,
 		"oracle_selftests_passed":  t.selfOK,
 		"samples":                  samples.L,
-		"watchdog_s":               watchdog.Seconds(),
+		"confirmation_runs":        confRuns,
+		"watchdog_s":               fullWatchdog.Seconds(),
+		"suspect_watchdog_s":       map[string]float64{"net": float64(suspectNetMs) / 1e3, "lib": float64(suspectLibMs) / 1e3},
 		"worker_cpu_net_s":         float64(t.usNet) / 1e6,
 		"worker_net_case_max_ms":   float64(t.usNetMax) / 1e3,
 		"worker_cpu_lib_s":         float64(t.usLib) / 1e6,
@@ -748,35 +830,56 @@ func main() {
 }
 
 // runLibBatch records the result of a library batch. Recovered panics are listed per
-// input by the worker; a batch that killed the worker (fatal error, out of memory,
-// hang) is re-run input by input so that the death is attributed to one input.
+// input by the worker; when the worker dies (fatal error, out of memory) or reports a
+// hang, the failing input is the one announced last on the progress channel: it is
+// recorded, the inputs before it are re-run for their outcomes, the rest continues.
 func runLibBatch(p *proc, cs *Case, res Result, record func(*Case, Result), t *tally) {
-	single := func(in string) *Case {
+	sub := func(ins []string) *Case {
 		one := *cs
 		l := *cs.Lib
-		l.Ins = []string{in}
+		l.Ins = ins
 		one.Lib = &l
 		return &one
 	}
-	if res.Died || (res.Viol != nil && res.Fatal) {
-		if len(cs.Lib.Ins) == 1 {
+	for {
+		for _, v := range res.More {
+			record(sub([]string{cs.Lib.Ins[v.Event]}), Result{ID: cs.ID, Viol: v})
+		}
+		res.More = nil
+		if res.Viol == nil {
 			record(cs, res)
+			return
+		}
+		idx := res.Viol.Event
+		if idx < 0 || idx >= len(cs.Lib.Ins) {
+			record(cs, res) // death outside any input: charge the batch
 			return
 		}
 		t.mu.Lock()
 		t.deaths++
 		t.mu.Unlock()
-		for _, in := range cs.Lib.Ins {
-			one := single(in)
-			record(one, p.run(one))
+		record(sub([]string{cs.Lib.Ins[idx]}), Result{ID: cs.ID, Viol: res.Viol})
+		if res.Died && idx > 0 {
+			pre := sub(cs.Lib.Ins[:idx])
+			r0 := p.run(pre)
+			if r0.Viol == nil {
+				for _, v := range r0.More {
+					record(sub([]string{pre.Lib.Ins[v.Event]}), Result{ID: cs.ID, Viol: v})
+				}
+				r0.More = nil
+				record(pre, r0)
+			}
+		} else if idx > 0 {
+			part := res
+			part.Viol = nil
+			record(sub(cs.Lib.Ins[:idx]), part)
 		}
-		return
+		if idx+1 >= len(cs.Lib.Ins) {
+			return
+		}
+		cs = sub(cs.Lib.Ins[idx+1:])
+		res = p.run(cs)
 	}
-	for _, v := range res.More {
-		record(single(cs.Lib.Ins[v.Event]), Result{ID: cs.ID, Viol: v})
-	}
-	res.Viol = nil
-	record(cs, res)
 }
 
 func indent(s string, maxLines int) string {
